@@ -9,7 +9,7 @@ from __future__ import annotations
 import itertools
 
 from .. import common, loaders
-from ..common import enc_bools, enc_list, enc_optint
+from ..common import enc_bools, enc_bytes, enc_list, enc_optint
 
 RULE = ("every reducible/non-reducible layout up to length L x every (a,b) in [-L-2, L+2]^2 plus None, "
         "a<=b after clamping, plus random longer layouts with random (also huge) indices; a case is "
@@ -173,6 +173,77 @@ def chain(ctx, layout, ops, copies, do_model=True):
         ctx.nontriv("chain", tuple(layout), tuple(ops), tuple(copies))
 
 
+def object_histories(ctx, count, do_model=True):
+    """'a copy is independent', as a history of OBJECTS: random sequences of copy() / rmslice() / in-place list edits over a
+    growing family of objects of every testcase class.  Monitor: an operation on one object leaves the lists of all others
+    as they were.  Correspondence with the heap model (`alias`): the contents of every object and WHICH objects share a
+    list object (`is`) after the whole sequence"""
+    rng = ctx.rng
+    for n in range(count):
+        kind = loaders.KINDS[n % len(loaders.KINDS)]
+        k = rng.randint(1, 6)
+        layout = tuple(rng.random() < 0.75 for _ in range(k))
+        first = mk(layout, kind)
+        first.before = first.after = b""
+        p0, r0 = list(first.parts), list(first.reducible)
+        objs, ops = [first], []
+        for _step in range(rng.randint(1, 9)):
+            o = rng.randrange(len(objs))
+            what = rng.choice("ccrrrfp")
+            snap = [(list(x.parts), list(x.reducible)) for x in objs]
+            case = dict(splitter=kind, parts=enc_list(p0), flags=enc_bools(r0), ops=";".join(ops + ["<next>"]), object_history=True)
+            try:
+                if what == "c":
+                    objs.append(objs[o].copy())
+                    ops.append(f"c:{o}")
+                    untouched = range(len(snap))
+                elif what == "r":
+                    m = len(objs[o])
+                    a = rng.choice([None] + list(range(-m - 1, m + 2)))
+                    b = rng.choice([None] + list(range(-m - 1, m + 2)))
+                    ops.append(f"r:{o}:{'N' if a is None else a}:{'N' if b is None else b}")
+                    try:
+                        objs[o].rmslice(a, b)
+                    except IndexError:
+                        pass
+                    untouched = [j for j in range(len(snap)) if j != o]
+                elif what == "f" and objs[o].reducible:
+                    i = rng.randrange(len(objs[o].reducible))
+                    v = rng.random() < 0.5
+                    objs[o].reducible[i] = v
+                    ops.append(f"f:{o}:{i}:{1 if v else 0}")
+                    untouched = [j for j in range(len(snap)) if j != o]
+                elif what == "p" and objs[o].parts:
+                    i = rng.randrange(len(objs[o].parts))
+                    v = bytes([rng.randrange(97, 123)]) * rng.randint(1, 2)
+                    objs[o].parts[i] = v
+                    ops.append(f"p:{o}:{i}:{enc_bytes(v)}")
+                    untouched = [j for j in range(len(snap)) if j != o]
+                else:
+                    continue
+            except Exception as exc:  # pylint: disable=broad-except
+                ctx.fail("raises", f"{kind}: history {ops} then {what} on object {o}: {type(exc).__name__}: {exc}", case)
+                break
+            case["ops"] = ";".join(ops)
+            bad = [j for j in untouched if (list(objs[j].parts), list(objs[j].reducible)) != snap[j]]
+            if bad:
+                ctx.fail("copy-not-independent", f"{kind}: after {ops}, object(s) {bad} changed although the last operation was on object {o}: "
+                         f"{[(objs[j].parts, enc_bools(objs[j].reducible)) for j in bad]} (before: {[snap[j] for j in bad]})", case)
+                break
+        views = "|".join(f"{enc_list(list(x.parts))} {enc_bools(list(x.reducible))}" for x in objs)
+        first_p = ",".join(str(next(i for i, y in enumerate(objs) if y.parts is x.parts)) for x in objs)
+        first_r = ",".join(str(next(i for i, y in enumerate(objs) if y.reducible is x.reducible)) for x in objs)
+        real = f"{views} P={first_p} R={first_r}"
+        case = dict(splitter=kind, parts=enc_list(p0), flags=enc_bools(r0), ops=";".join(ops), object_history=True)
+        if do_model:
+            ctx.expect("alias", f"alias {enc_list(p0)} {enc_bools(r0)} {';'.join(ops) or '.'}", real, case)
+        else:
+            ctx.evaluations += 1
+        ctx.bump("object-histories")
+        if len(objs) >= 3 and any(op[0] in "fp" for op in ops):
+            ctx.nontriv("history", kind, tuple(ops), tuple(p0), tuple(r0))
+
+
 def flag_edits(ctx, count):
     """the flags of an object are edited in place after its length was observed (as pinning a line does:
     `tc.reducible[i] = False`), then a range is deleted from the SAME object: the deletion and len() follow the flags as they are now"""
@@ -258,6 +329,7 @@ def search(ctx):
     """failing-input search: monitors only, on an enlarged space"""
     chains(ctx, 5, 20000, do_model=False)
     flag_edits(ctx, 8000)
+    object_histories(ctx, 20000, do_model=False)
     sweep(ctx, 9, do_model=False)
     randoms(ctx, 20000, do_model=False)
 
@@ -271,9 +343,10 @@ def run(ctx) -> int:
     randoms(ctx, 60000 if ctx.thorough else 20000)
     chains(ctx, 5 if ctx.thorough else 4, 20000 if ctx.thorough else 4000)
     flag_edits(ctx, 8000 if ctx.thorough else 2000)
+    object_histories(ctx, 20000 if ctx.thorough else 4000)
     ctx.exhaustive.append("every pair of consecutive deletions on one object for all layouts of length <= 4 (quick) / 5 (thorough)")
     return common.decide(ctx, proof, RULE, search=search,
-                         assumptions=["'a copy is independent' is a statement about Python aliasing: a pure model makes it true by construction, so that clause rests on the monitor of this run alone"])
+                         assumptions=["'a copy is independent' is a statement about Python aliasing: C07_copy_independent proves it on a heap model (objects hold references to list objects; copy/rmslice allocate, callers may edit lists in place) whose tie to the code is the sharing structure (`is`) and contents after random object histories, plus the monitor"])
 
 
 def replay(rec) -> int:
